@@ -1,65 +1,1740 @@
+// Harness of property C01: simulated PCRs agree with the simulator's own event
+// log, command log and data.
+//
+// Boot flows are built from the PUBLIC step / action / data-source
+// constructors, run by bootengine.BootProcess.Finish on the real code, and
+// everything the property names is read back: TPM.PCRValues, CommandLog,
+// EventLog, State.MeasuredData, the two replay routines, a re-execution of the
+// command log.  Each case carries the flow (as the items of Model/BootSim.v),
+// the observations and a hash table; Coq re-runs the model on it.
+//
+// The oracle (independent of the model, written from the property text):
+//   (a) for flows of the well-formed kind (one startup, then measurements that
+//       extend AND log): tpmeventlog.Replay(own log) == PCR for both PCRs and
+//       both banks (startup logged or locality 0), tpm.EventLog.Replay(0, alg,
+//       startup locality) == PCR0;
+//   (b) re-executing CommandLog.Commands() on a new TPM gives the same PCRs
+//       (Apply by Apply for every flow, Commands.Apply for flows without issues);
+//   (c) every digest extended/logged for a measurement == hash(ConvertedBytes),
+//       ConvertedBytes == converter(concatenation in reference order of the
+//       bytes read INDEPENDENTLY from the artifacts), extend and log-add of one
+//       measurement carry the same digest.
 package main
 
 import (
+	"bytes"
 	"context"
+	"crypto/sha1"
+	"crypto/sha256"
+	"encoding/binary"
+	"encoding/hex"
 	"fmt"
+	"sort"
+	"strings"
 
+	"verifharness/gal"
+
+	"github.com/9elements/converged-security-suite/v2/pkg/bootflow/actions/tpmactions"
 	"github.com/9elements/converged-security-suite/v2/pkg/bootflow/bootengine"
-	"github.com/9elements/converged-security-suite/v2/pkg/bootflow/flows"
-	"github.com/9elements/converged-security-suite/v2/pkg/bootflow/steps/tpmsteps"
+	"github.com/9elements/converged-security-suite/v2/pkg/bootflow/dataconverters"
 	"github.com/9elements/converged-security-suite/v2/pkg/bootflow/datasources"
-	"github.com/9elements/converged-security-suite/v2/pkg/bootflow/subsystems/trustchains/tpm"
+	"github.com/9elements/converged-security-suite/v2/pkg/bootflow/flows"
+	"github.com/9elements/converged-security-suite/v2/pkg/bootflow/steps/commonsteps"
+	"github.com/9elements/converged-security-suite/v2/pkg/bootflow/steps/intelsteps"
+	"github.com/9elements/converged-security-suite/v2/pkg/bootflow/steps/tpmsteps"
 	"github.com/9elements/converged-security-suite/v2/pkg/bootflow/subsystems/trustchains/intelpch"
+	"github.com/9elements/converged-security-suite/v2/pkg/bootflow/subsystems/trustchains/tpm"
+	"github.com/9elements/converged-security-suite/v2/pkg/bootflow/subsystems/trustchains/tpm/pcr"
 	"github.com/9elements/converged-security-suite/v2/pkg/bootflow/systemartifacts/biosimage"
 	"github.com/9elements/converged-security-suite/v2/pkg/bootflow/systemartifacts/txtpublic"
 	"github.com/9elements/converged-security-suite/v2/pkg/bootflow/types"
 	"github.com/9elements/converged-security-suite/v2/pkg/registers"
 	"github.com/9elements/converged-security-suite/v2/pkg/tpmeventlog"
+	ffsConsts "github.com/9elements/converged-security-suite/v2/pkg/uefi/ffs/consts"
 	"github.com/9elements/converged-security-suite/v2/testdata/firmware"
+	"github.com/google/go-tpm/legacy/tpm2"
+	pkgbytes "github.com/linuxboot/fiano/pkg/bytes"
+	"github.com/linuxboot/fiano/pkg/guid"
 )
 
-func main() {
-	ctx := context.Background()
-	for _, f := range []types.Flow{flows.Root, flows.Intel, flows.IntelCBnT, flows.IntelLegacyTXTEnabled, flows.OCPPEI,
-		types.NewFlow("x", types.Steps{tpmsteps.InitTPM(200, true), tpmsteps.Measure(0, 1, datasources.Bytes{1, 2})})} {
-		t := tpm.NewTPM()
-		s := types.NewState()
-		s.IncludeSubSystem(t)
-		s.IncludeSubSystem(intelpch.NewPCH())
-		s.IncludeSystemArtifact(biosimage.New(firmware.FakeIntelFirmware))
-		s.IncludeSystemArtifact(txtpublic.New(registers.Registers{registers.ParseACMPolicyStatusRegister(0x0000000200108681)}))
-		s.SetFlow(f)
-		p := bootengine.NewBootProcess(s)
-		p.Finish(ctx)
-		fmt.Println("== flow", f.Name)
-		for i, sr := range p.Log {
-			fmt.Printf(" step %d %T actions=%d issues=%d\n", i, sr.Step, len(sr.Actions), len(sr.Issues))
-			for _, a := range sr.Actions {
-				fmt.Printf("    %T %v\n", a, a)
+const (
+	algSHA1   = 4
+	algSHA256 = 11
+	evNoAct   = 3
+	physBase  = uint64(0x100000000)
+	knownUTF8 = "C01-startup-locality-utf8"
+)
+
+var algs = []uint16{algSHA1, algSHA256}
+
+var ctx *gal.Ctx
+var bg = context.Background()
+
+// ---------------------------------------------------------------- literals
+
+// bl prints a byte string as the packed literal of Model/BootSimCases.v.
+func bl(b []byte) string {
+	if len(b) == 0 {
+		return "[]"
+	}
+	var sb strings.Builder
+	sb.WriteString("(L ")
+	closes := 0
+	i := 0
+	for i < len(b) {
+		n, name := 1, "(B1"
+		if len(b)-i >= 32 {
+			n, name = 32, "(B32"
+		} else if len(b)-i >= 4 {
+			n, name = 4, "(B4"
+		}
+		sb.WriteString(name)
+		for _, x := range b[i : i+n] {
+			fmt.Fprintf(&sb, " x%02x", x)
+		}
+		sb.WriteString(" ")
+		closes++
+		i += n
+	}
+	sb.WriteString("BE")
+	sb.WriteString(strings.Repeat(")", closes))
+	sb.WriteString(")")
+	return sb.String()
+}
+
+func optBytes(b []byte) string {
+	if b == nil {
+		return "None"
+	}
+	return "(Some " + bl(b) + ")"
+}
+
+func hashOf(alg uint16, msg []byte) []byte {
+	switch alg {
+	case algSHA1:
+		h := sha1.Sum(msg)
+		return h[:]
+	case algSHA256:
+		h := sha256.Sum256(msg)
+		return h[:]
+	}
+	return nil
+}
+
+func hsize(alg uint16) int {
+	switch alg {
+	case algSHA1:
+		return 20
+	case algSHA256:
+		return 32
+	}
+	return 0
+}
+
+// ---------------------------------------------------------------- artifacts, references, data
+
+type artifact struct {
+	kind    int    // 0 types.RawBytes, 1 BIOS image, 2 TXT register space (bytes given by the harness)
+	coq     string // Coq constant holding the content (images)
+	content []byte
+	real    types.SystemArtifact
+}
+
+type refSpec struct {
+	art    *artifact
+	phys   bool
+	ranges [][2]uint64 // offset, length
+	lit    []byte      // kind 2: the bytes the reference denotes, computed by the harness
+}
+
+type dataSpec struct {
+	refs []refSpec
+	conv uint16 // 0: nil converter, 4/11: Hasher of that algorithm
+}
+
+type srcSpec struct {
+	err  bool
+	data dataSpec
+}
+
+// msg is a byte string together with a Gallina expression denoting it
+type msg struct {
+	b []byte
+	e string
+}
+
+func litMsg(b []byte) msg { return msg{b: b, e: bl(b)} }
+
+// denote reads the bytes a reference denotes, INDEPENDENTLY of Reference.RawBytes: the set of
+// referenced offsets in increasing order (overlaps counted once), resolved through the mapper.
+// ok=false: some referenced byte does not exist (RawBytes must panic).
+func denote(r refSpec) (m msg, ok bool) {
+	if r.art.kind == 2 {
+		return litMsg(r.lit), true
+	}
+	var iv [][2]uint64 // [start, end)
+	for _, x := range r.ranges {
+		if x[1] == 0 {
+			continue
+		}
+		iv = append(iv, [2]uint64{x[0], x[0] + x[1]})
+	}
+	sort.SliceStable(iv, func(i, j int) bool { return iv[i][0] < iv[j][0] })
+	var merged [][2]uint64
+	for _, x := range iv {
+		if n := len(merged); n > 0 && x[0] <= merged[n-1][1] {
+			if x[1] > merged[n-1][1] {
+				merged[n-1][1] = x[1]
 			}
-			for _, is := range sr.Issues {
-				m := is.Issue.Error()
-				if len(m) > 150 {
-					m = m[:150]
+			continue
+		}
+		merged = append(merged, x)
+	}
+	size := uint64(len(r.art.content))
+	var out []byte
+	var parts []string
+	for _, x := range merged {
+		s, e := x[0], x[1]
+		if r.phys {
+			s, e = s-physBase+size, e-physBase+size
+		}
+		if s > e || e > size {
+			return msg{}, false
+		}
+		out = append(out, r.art.content[s:e]...)
+		if r.art.coq != "" {
+			parts = append(parts, fmt.Sprintf("sl %s %d %d", r.art.coq, s, e-s))
+		} else {
+			parts = append(parts, bl(r.art.content[s:e]))
+		}
+	}
+	if len(parts) == 0 {
+		return msg{b: nil, e: "[]"}, true
+	}
+	return msg{b: out, e: "(" + strings.Join(parts, " ++ ") + ")"}, true
+}
+
+// rawOf: concatenation in reference order
+func rawOf(d dataSpec) (m msg, ok bool) {
+	var parts []string
+	var out []byte
+	for _, r := range d.refs {
+		x, ok := denote(r)
+		if !ok {
+			return msg{}, false
+		}
+		out = append(out, x.b...)
+		parts = append(parts, x.e)
+	}
+	if len(parts) == 0 {
+		return msg{e: "[]"}, true
+	}
+	return msg{b: out, e: "(" + strings.Join(parts, " ++ ") + ")"}, true
+}
+
+func refLit(r refSpec) string {
+	if r.art.kind == 2 {
+		return "(CLit " + bl(r.lit) + ")"
+	}
+	var rs []string
+	for _, x := range r.ranges {
+		rs = append(rs, gal.Pair(gal.U(x[0]), gal.U(x[1])))
+	}
+	if r.art.kind == 1 {
+		if r.phys {
+			return fmt.Sprintf("(img_ref 1 %s %s)", r.art.coq, gal.List(rs))
+		}
+		return fmt.Sprintf("(CRef (RF.mkRef (RF.mkArt 1 1 false %s) RF.MNil (map (fun '(o, n) => RG.mkR o n) %s)))", r.art.coq, gal.List(rs))
+	}
+	return fmt.Sprintf("(raw_ref 0 %s %s)", bl(r.art.content), gal.List(rs))
+}
+
+func refsLit(rs []refSpec) string {
+	var s []string
+	for _, r := range rs {
+		s = append(s, refLit(r))
+	}
+	return gal.List(s)
+}
+
+func dataLit(d dataSpec) string {
+	c := "None"
+	if d.conv != 0 {
+		c = fmt.Sprintf("(Some %d)", d.conv)
+	}
+	return fmt.Sprintf("(mkData %s %s)", refsLit(d.refs), c)
+}
+
+func srcLit(s srcSpec) string {
+	if s.err {
+		return "DSErr"
+	}
+	return "(DS " + dataLit(s.data) + ")"
+}
+
+func realRef(r refSpec) types.Reference {
+	var rs pkgbytes.Ranges
+	for _, x := range r.ranges {
+		rs = append(rs, pkgbytes.Range{Offset: x[0], Length: x[1]})
+	}
+	ref := types.Reference{Artifact: r.art.real, MappedRanges: types.MappedRanges{Ranges: rs}}
+	if r.phys {
+		ref.AddressMapper = biosimage.PhysMemMapper{}
+	}
+	return ref
+}
+
+func realConv(c uint16, alt bool) types.DataConverter {
+	switch c {
+	case algSHA1:
+		if alt {
+			return dataconverters.NewHasherFactory(sha1.New)
+		}
+		return dataconverters.NewHasher(sha1.New())
+	case algSHA256:
+		if alt {
+			return dataconverters.NewHasherFactory(sha256.New)
+		}
+		return dataconverters.NewHasher(sha256.New())
+	}
+	return nil
+}
+
+// ---------------------------------------------------------------- items
+
+type itemSpec struct {
+	kind    string // init inittpm loginit event extend logadd pcr0 panic
+	l       uint8
+	withLog bool
+	p       uint8
+	ty      uint32
+	evd     []byte // nil = nil slice
+	alg     uint16
+	digest  []byte
+	src     srcSpec
+	pcr0    [2]*dataSpec // per bank, nil = commonactions.Panic instead of the pair
+	ds      types.DataSource
+	viaStep bool           // realise through the tpmsteps constructor
+	acts    []types.Action // the real actions of the item, in order
+}
+
+func (it *itemSpec) lit() string {
+	switch it.kind {
+	case "init":
+		return fmt.Sprintf("(IInit %d)", it.l)
+	case "inittpm":
+		return fmt.Sprintf("(IInitTPM %d %s)", it.l, gal.Bool(it.withLog))
+	case "loginit":
+		return fmt.Sprintf("(ILogInit %d)", it.l)
+	case "event":
+		return fmt.Sprintf("(IEvent %d %s %d %s)", it.p, srcLit(it.src), it.ty, optBytes(it.evd))
+	case "extend":
+		return fmt.Sprintf("(IExtend %d %s %d)", it.p, srcLit(it.src), it.alg)
+	case "logadd":
+		return fmt.Sprintf("(ILogAdd %d %d %s %d %s)", it.p, it.alg, bl(it.digest), it.ty, optBytes(it.evd))
+	case "pcr0":
+		o := func(d *dataSpec) string {
+			if d == nil {
+				return "None"
+			}
+			return "(Some " + refsLit(d.refs) + ")"
+		}
+		return fmt.Sprintf("(IPCR0Data %s %s)", o(it.pcr0[0]), o(it.pcr0[1]))
+	}
+	return "IPanic"
+}
+
+func hx(b []byte) interface{} {
+	if b == nil {
+		return nil
+	}
+	return hex.EncodeToString(b)
+}
+
+func dataDescr(d dataSpec) interface{} {
+	var refs []interface{}
+	for _, r := range d.refs {
+		m := map[string]interface{}{"ranges": r.ranges, "physmem": r.phys}
+		switch r.art.kind {
+		case 0:
+			m["rawbytes"] = hx(r.art.content)
+		case 1:
+			m["image"] = r.art.coq
+		case 2:
+			m["txt_register_bytes"] = hx(r.lit)
+		}
+		refs = append(refs, m)
+	}
+	return map[string]interface{}{"refs": refs, "hasher": d.conv}
+}
+
+func (it *itemSpec) descr() interface{} {
+	m := map[string]interface{}{"item": it.kind}
+	switch it.kind {
+	case "init", "loginit":
+		m["locality"] = it.l
+	case "inittpm":
+		m["locality"], m["withLog"] = it.l, it.withLog
+	case "event":
+		m["pcr"], m["type"], m["eventData"] = it.p, it.ty, hx(it.evd)
+	case "extend":
+		m["pcr"], m["alg"] = it.p, it.alg
+	case "logadd":
+		m["pcr"], m["alg"], m["digest"], m["type"], m["eventData"] = it.p, it.alg, hx(it.digest), it.ty, hx(it.evd)
+	}
+	if it.kind == "event" || it.kind == "extend" {
+		if it.src.err {
+			m["source"] = "error"
+		} else {
+			m["source"] = dataDescr(it.src.data)
+		}
+	}
+	return m
+}
+
+// ---------------------------------------------------------------- platform
+
+type platform struct {
+	img     *artifact
+	hasRegs bool
+	reg     uint64
+	txt     *artifact
+	state   *types.State
+	tpm     *tpm.TPM
+}
+
+var img4kBytes []byte
+
+func newPlatform(useFW bool, hasRegs bool, reg uint64) *platform {
+	p := &platform{hasRegs: hasRegs, reg: reg}
+	if useFW {
+		p.img = &artifact{kind: 1, coq: "fw", content: firmware.FakeIntelFirmware}
+	} else {
+		p.img = &artifact{kind: 1, coq: "img4k", content: img4kBytes}
+	}
+	p.img.real = biosimage.New(p.img.content)
+	p.tpm = tpm.NewTPM()
+	s := types.NewState()
+	s.IncludeSubSystem(p.tpm)
+	s.IncludeSubSystem(intelpch.NewPCH())
+	s.IncludeSystemArtifact(p.img.real)
+	if hasRegs {
+		tp := txtpublic.New(registers.Registers{registers.ParseACMPolicyStatusRegister(reg)})
+		p.txt = &artifact{kind: 2, real: tp}
+		s.IncludeSystemArtifact(tp)
+	}
+	p.state = s
+	return p
+}
+
+// toDataSpec converts a types.Data produced by the implementation's data sources into a spec
+// (which artifact, which mapper, which ranges): the "list of references" abstraction of a source.
+func (p *platform) toDataSpec(d *types.Data) (dataSpec, bool) {
+	var out dataSpec
+	for _, r := range d.References {
+		var rs refSpec
+		for _, x := range r.Ranges {
+			rs.ranges = append(rs.ranges, [2]uint64{x.Offset, x.Length})
+		}
+		switch m := r.AddressMapper.(type) {
+		case nil:
+		case biosimage.PhysMemMapper:
+			rs.phys = true
+		default:
+			_ = m
+			return out, false
+		}
+		switch a := r.Artifact.(type) {
+		case *biosimage.BIOSImage:
+			if a != p.img.real {
+				return out, false
+			}
+			rs.art = p.img
+		case types.RawBytes:
+			rs.art = &artifact{kind: 0, content: append([]byte{}, a...), real: a}
+		case *txtpublic.TXTPublic:
+			// the register space: the only register present is ACM_POLICY_STATUS (8 bytes, little endian)
+			off := registers.ACMPolicyStatus(0).Address() - registers.TxtPublicSpace
+			if len(rs.ranges) != 1 || rs.ranges[0][0] != off || rs.ranges[0][1] != 8 || rs.phys {
+				return out, false
+			}
+			rs.art = p.txt
+			rs.lit = make([]byte, 8)
+			binary.LittleEndian.PutUint64(rs.lit, p.reg)
+		default:
+			return out, false
+		}
+		out.refs = append(out.refs, rs)
+	}
+	switch c := d.Converter.(type) {
+	case nil:
+	case *dataconverters.Hasher:
+		out.conv = algOfSize(c.Hash.Size())
+	case dataconverters.HasherFactory:
+		out.conv = algOfSize(c.NewHasherFunc().Size())
+	default:
+		return out, false
+	}
+	return out, true
+}
+
+func algOfSize(n int) uint16 {
+	if n == 20 {
+		return algSHA1
+	}
+	return algSHA256
+}
+
+// ---------------------------------------------------------------- generator
+
+func rbytes(n int) []byte {
+	b := make([]byte, n)
+	for i := range b {
+		b[i] = byte(ctx.Rng.Intn(256))
+	}
+	return b
+}
+
+func pick[T any](xs ...T) T { return xs[ctx.Rng.Intn(len(xs))] }
+
+func genLocality() uint8 {
+	switch ctx.Rng.Intn(10) {
+	case 0, 1, 2:
+		return 0
+	case 3, 4, 5:
+		return 3
+	case 6:
+		return uint8(1 + ctx.Rng.Intn(127))
+	case 7:
+		return pick[uint8](127, 128, 255, 4)
+	default:
+		return uint8(128 + ctx.Rng.Intn(128))
+	}
+}
+
+func genLen() int {
+	switch ctx.Rng.Intn(12) {
+	case 0:
+		return 0
+	case 1:
+		return 1
+	case 2:
+		return 55 + ctx.Rng.Intn(12) // around the SHA block padding boundary
+	case 3:
+		return 100 + ctx.Rng.Intn(400)
+	default:
+		return 1 + ctx.Rng.Intn(40)
+	}
+}
+
+func (p *platform) genRef(allowBad bool) refSpec {
+	switch ctx.Rng.Intn(10) {
+	case 0, 1, 2, 3: // RawBytes artifact
+		b := rbytes(genLen())
+		a := &artifact{kind: 0, content: b, real: types.RawBytes(b)}
+		r := refSpec{art: a}
+		if ctx.Rng.Intn(3) > 0 || len(b) == 0 {
+			r.ranges = [][2]uint64{{0, uint64(len(b))}}
+			return r
+		}
+		n := 1 + ctx.Rng.Intn(3)
+		for i := 0; i < n; i++ {
+			o := ctx.Rng.Intn(len(b))
+			l := ctx.Rng.Intn(len(b) - o + 1)
+			r.ranges = append(r.ranges, [2]uint64{uint64(o), uint64(l)})
+		}
+		if allowBad && ctx.Rng.Intn(12) == 0 {
+			r.ranges = append(r.ranges, [2]uint64{uint64(len(b) - 1), 3})
+		}
+		return r
+	default: // image
+		size := len(p.img.content)
+		r := refSpec{art: p.img, phys: ctx.Rng.Intn(4) > 0}
+		n := 1 + ctx.Rng.Intn(3)
+		for i := 0; i < n; i++ {
+			l := genLen()
+			if ctx.Rng.Intn(25) == 0 {
+				l = 1500 + ctx.Rng.Intn(1500)
+			}
+			if l > size {
+				l = size
+			}
+			o := ctx.Rng.Intn(size - l + 1)
+			switch ctx.Rng.Intn(12) {
+			case 0:
+				o = size - l // last bytes of the image
+			case 1:
+				o = 0
+			case 2:
+				if len(r.ranges) > 0 { // overlap or touch the previous range
+					o = int(r.ranges[len(r.ranges)-1][0]) + ctx.Rng.Intn(int(r.ranges[len(r.ranges)-1][1])+1)
+					if r.phys {
+						o = int(r.ranges[len(r.ranges)-1][0]-(physBase-uint64(size))) + ctx.Rng.Intn(int(r.ranges[len(r.ranges)-1][1])+1)
+					}
+					if o+l > size {
+						l = size - o
+					}
 				}
-				fmt.Printf("    ISSUE %T %v: %s\n", is.Coords, is.Coords, m)
+			}
+			off := uint64(o)
+			if r.phys {
+				off += physBase - uint64(size)
+			}
+			r.ranges = append(r.ranges, [2]uint64{off, uint64(l)})
+		}
+		if allowBad && ctx.Rng.Intn(12) == 0 { // runs over the end of the image
+			off := uint64(size - 2)
+			if r.phys {
+				off += physBase - uint64(size)
+			}
+			r.ranges = append(r.ranges, [2]uint64{off, 5})
+		}
+		return r
+	}
+}
+
+func (p *platform) genData(allowBad bool) dataSpec {
+	var d dataSpec
+	n := pick(1, 1, 1, 2, 2, 3, 0)
+	for i := 0; i < n; i++ {
+		d.refs = append(d.refs, p.genRef(allowBad))
+	}
+	d.conv = pick[uint16](0, 0, 0, algSHA1, algSHA256)
+	return d
+}
+
+var dxeGUIDs = []guid.GUID{ffsConsts.GUIDDXEContainer, ffsConsts.GUIDDXE}
+
+// genSource picks a data source built from the public constructors and the spec describing it
+func (p *platform) genSource(allowBad bool) (srcSpec, types.DataSource) {
+	switch ctx.Rng.Intn(20) {
+	case 0: // a source that returns an error
+		g := guid.GUID{}
+		copy(g[:], rbytes(16))
+		return srcSpec{err: true}, datasources.UEFIGUIDFirst{g}
+	case 1: // GUID-selected volume (the references are what the source reports)
+		if p.img.coq == "fw" {
+			ds := datasources.UEFIGUIDFirst(dxeGUIDs)
+			d, err := ds.Data(bg, p.state)
+			if err == nil {
+				if spec, ok := p.toDataSpec(d); ok {
+					return srcSpec{data: spec}, ds
+				}
+			}
+			return srcSpec{err: true}, ds
+		}
+	case 2, 3, 4: // datasources.Bytes
+		b := rbytes(genLen())
+		if ctx.Rng.Intn(8) == 0 {
+			b = []byte{0, 0, 0, 0} // the separator
+		}
+		if ctx.Rng.Intn(15) == 0 {
+			return srcSpec{}, datasources.Bytes(nil)
+		}
+		a := &artifact{kind: 0, content: b, real: types.RawBytes(b)}
+		return srcSpec{data: dataSpec{refs: []refSpec{{art: a, ranges: [][2]uint64{{0, uint64(len(b))}}}}}}, datasources.Bytes(b)
+	case 5, 6, 7: // datasources.MemRanges
+		r := p.genRef(allowBad)
+		for r.art.kind != 1 || !r.phys {
+			r = p.genRef(allowBad)
+		}
+		var mr datasources.MemRanges
+		for _, x := range r.ranges {
+			mr = append(mr, pkgbytes.Range{Offset: x[0], Length: x[1]})
+		}
+		return srcSpec{data: dataSpec{refs: []refSpec{r}}}, mr
+	case 8: // datasources.Concat of two sources
+		d1, d2 := p.genData(allowBad), p.genData(allowBad)
+		d1.conv, d2.conv = 0, 0
+		mk := func(d dataSpec) types.DataSource {
+			td := &types.Data{}
+			for _, r := range d.refs {
+				td.References = append(td.References, realRef(r))
+			}
+			return (*datasources.StaticData)(td)
+		}
+		return srcSpec{data: dataSpec{refs: append(append([]refSpec{}, d1.refs...), d2.refs...)}}, datasources.Concat{mk(d1), mk(d2)}
+	}
+	d := p.genData(allowBad)
+	td := &types.Data{Converter: realConv(d.conv, ctx.Rng.Intn(2) == 0)}
+	for _, r := range d.refs {
+		td.References = append(td.References, realRef(r))
+	}
+	return srcSpec{data: d}, (*datasources.StaticData)(td)
+}
+
+func genType(allowNoAction bool) uint32 {
+	if allowNoAction && ctx.Rng.Intn(10) == 0 {
+		return evNoAct
+	}
+	t := pick[uint32](1, 4, 7, 8, 0x8000000A, 0x80000008, 0, 2, 5, uint32(ctx.Rng.Uint32()))
+	if t == evNoAct {
+		t = 1
+	}
+	return t
+}
+
+func genEvd() []byte {
+	switch ctx.Rng.Intn(4) {
+	case 0:
+		return nil
+	case 1:
+		return []byte{}
+	}
+	return rbytes(1 + ctx.Rng.Intn(20))
+}
+
+func (p *platform) genEvent(general bool) *itemSpec {
+	it := &itemSpec{kind: "event", p: pick[uint8](0, 0, 0, 1, 1), ty: genType(general), evd: genEvd()}
+	if ctx.Rng.Intn(20) == 0 {
+		it.p = pick[uint8](2, 7, 23, 255)
+	}
+	it.src, it.ds = p.genSource(true)
+	it.viaStep = it.evd == nil && ctx.Rng.Intn(2) == 0
+	return it
+}
+
+func genStartup(l uint8) (items []*itemSpec, logged bool) {
+	switch ctx.Rng.Intn(12) {
+	case 0, 1, 2, 3:
+		return []*itemSpec{{kind: "inittpm", l: l, withLog: true}}, true
+	case 4, 5, 6:
+		return []*itemSpec{{kind: "inittpm", l: l}}, false
+	case 7:
+		return []*itemSpec{{kind: "init", l: l}}, false
+	case 8:
+		return []*itemSpec{{kind: "inittpm", l: l}, {kind: "loginit", l: l}}, true
+	case 9:
+		return []*itemSpec{{kind: "init", l: l}, {kind: "loginit", l: l}}, true
+	case 10:
+		return []*itemSpec{{kind: "loginit", l: l}, {kind: "inittpm", l: l}}, true
+	}
+	return []*itemSpec{{kind: "loginit", l: l}, {kind: "init", l: l}}, true
+}
+
+// genWF: a flow of the well-formed kind
+func (p *platform) genWF() []*itemSpec {
+	items, _ := genStartup(genLocality())
+	n := pick(0, 0, 1, 2, 2, 3, 3, 4, 5, 7)
+	for i := 0; i < n; i++ {
+		switch {
+		case p.img.coq == "fw" && ctx.Rng.Intn(5) == 0:
+			items = append(items, &itemSpec{kind: "pcr0"})
+		case ctx.Rng.Intn(25) == 0:
+			items = append(items, &itemSpec{kind: "panic"})
+		default:
+			items = append(items, p.genEvent(false))
+		}
+	}
+	return items
+}
+
+// genGeneral: anything the constructors allow, in any order
+func (p *platform) genGeneral() []*itemSpec {
+	var items []*itemSpec
+	n := 1 + ctx.Rng.Intn(8)
+	for i := 0; i < n; i++ {
+		switch ctx.Rng.Intn(16) {
+		case 0, 1:
+			items = append(items, &itemSpec{kind: "inittpm", l: genLocality(), withLog: ctx.Rng.Intn(2) == 0})
+		case 2:
+			items = append(items, &itemSpec{kind: "init", l: genLocality()})
+		case 3:
+			items = append(items, &itemSpec{kind: "loginit", l: genLocality()})
+		case 4, 5: // bare TPMExtend
+			it := &itemSpec{kind: "extend", p: pick[uint8](0, 0, 1, 2), alg: pick[uint16](algSHA1, algSHA256, algSHA256, 12, 0, 5)}
+			it.src, it.ds = p.genSource(true)
+			if !it.src.err && ctx.Rng.Intn(2) == 0 { // TPM2_PCR_Extend of a digest computed by the caller
+				it.src.data.conv = pick[uint16](algSHA1, algSHA256)
+				td := &types.Data{Converter: realConv(it.src.data.conv, false)}
+				for _, r := range it.src.data.refs {
+					td.References = append(td.References, realRef(r))
+				}
+				it.ds = (*datasources.StaticData)(td)
+			}
+			items = append(items, it)
+		case 6, 7: // bare TPMEventLogAdd
+			alg := pick[uint16](algSHA1, algSHA256, 12)
+			dl := hsize(alg)
+			if ctx.Rng.Intn(6) == 0 {
+				dl = ctx.Rng.Intn(40)
+			}
+			items = append(items, &itemSpec{kind: "logadd", p: pick[uint8](0, 0, 1, 3), alg: alg, digest: rbytes(dl),
+				ty: genType(true), evd: genEvd()})
+		case 8:
+			if p.img.coq == "fw" {
+				items = append(items, &itemSpec{kind: "pcr0"})
+				break
+			}
+			fallthrough
+		case 9:
+			items = append(items, &itemSpec{kind: "panic"})
+		default:
+			items = append(items, p.genEvent(true))
+		}
+	}
+	// most general flows start the TPM somewhere near the beginning
+	if ctx.Rng.Intn(4) > 0 {
+		st, _ := genStartup(genLocality())
+		pos := 0
+		if ctx.Rng.Intn(3) == 0 {
+			pos = ctx.Rng.Intn(len(items) + 1)
+		}
+		items = append(items[:pos:pos], append(st, items[pos:]...)...)
+	}
+	return items
+}
+
+// group partitions the items into steps
+func group(items []*itemSpec) [][]*itemSpec {
+	var out [][]*itemSpec
+	i := 0
+	for i < len(items) {
+		n := 1
+		if ctx.Rng.Intn(3) == 0 {
+			n = 1 + ctx.Rng.Intn(3)
+		}
+		var st []*itemSpec
+		for len(st) < n && i < len(items) {
+			if items[i].kind == "pcr0" { // its own step
+				if len(st) > 0 {
+					break
+				}
+				st = append(st, items[i])
+				i++
+				break
+			}
+			st = append(st, items[i])
+			i++
+		}
+		out = append(out, st)
+	}
+	return out
+}
+
+func (it *itemSpec) actionLike() bool {
+	switch it.kind {
+	case "init", "event", "extend", "logadd":
+		return true
+	}
+	return false
+}
+
+func (it *itemSpec) realAction() types.Action {
+	switch it.kind {
+	case "init":
+		return tpmactions.NewTPMInit(it.l)
+	case "event":
+		return tpmactions.NewTPMEvent(pcr.ID(it.p), it.ds, tpmeventlog.EventType(it.ty), it.evd)
+	case "extend":
+		return tpmactions.NewTPMExtend(pcr.ID(it.p), it.ds, tpm2.Algorithm(it.alg))
+	case "logadd":
+		return tpmactions.NewTPMEventLogAdd(pcr.ID(it.p), tpm2.Algorithm(it.alg), it.digest, tpmeventlog.EventType(it.ty), it.evd)
+	}
+	panic("not an action item")
+}
+
+func (it *itemSpec) realStep() types.Step {
+	switch it.kind {
+	case "inittpm":
+		return tpmsteps.InitTPM(it.l, it.withLog)
+	case "loginit":
+		return tpmsteps.LogInit(it.l)
+	case "pcr0":
+		return intelsteps.MeasurePCR0DATA{}
+	case "panic":
+		return commonsteps.Panic("harness panic step")
+	case "event":
+		if it.viaStep {
+			return tpmsteps.Measure(pcr.ID(it.p), tpmeventlog.EventType(it.ty), it.ds)
+		}
+	}
+	return types.StaticStep{it.realAction()}
+}
+
+func realize(steps [][]*itemSpec) types.Steps {
+	var out types.Steps
+	for _, st := range steps {
+		if len(st) == 1 {
+			out = append(out, st[0].realStep())
+			continue
+		}
+		allActs := true
+		for _, it := range st {
+			if !it.actionLike() || it.viaStep {
+				allActs = false
 			}
 		}
-		fmt.Println(" cmdlog", len(t.CommandLog), "evlog", len(t.EventLog), "measured", len(s.MeasuredData))
-		for _, e := range t.EventLog {
-			fmt.Printf("   ev %d %v %x %v %q\n", e.PCRIndex, e.HashAlgo, e.Digest, e.Type, e.Data)
+		if allActs && ctx.Rng.Intn(2) == 0 {
+			var ss types.StaticStep
+			for _, it := range st {
+				ss = append(ss, it.realAction())
+			}
+			out = append(out, ss)
+			continue
 		}
-		evl := &tpmeventlog.TPMEventLog{}
-		for i := range t.EventLog {
-			e := &t.EventLog[i]
-			evl.Events = append(evl.Events, &tpmeventlog.Event{PCRIndex: e.PCRIndex, Type: e.Type, Data: e.Data, Digest: &tpmeventlog.Digest{HashAlgo: e.HashAlgo, Digest: e.Digest}})
+		var ms commonsteps.MergeSteps
+		for _, it := range st {
+			ms = append(ms, it.realStep())
 		}
-		if t.IsInitialized() {
-			for _, a := range tpm.SupportedHashAlgos() {
-				v, err := tpmeventlog.Replay(evl, 0, a, nil)
-				pv, _ := t.PCRValues.Get(0, a)
-				fmt.Printf("  alg %v pcr0 %x replay %x err %v\n", a, pv, v, err)
+		out = append(out, ms)
+	}
+	return out
+}
+
+// ---------------------------------------------------------------- from the executed process to items
+
+func isPanicAction(a types.Action) bool { return fmt.Sprintf("%T", a) == "commonactions.panicT" }
+
+// bind attaches the real actions of an executed step to the intended items (generated flows)
+func (p *platform) bind(st []*itemSpec, acts types.Actions) bool {
+	i := 0
+	take := func(n int) []types.Action {
+		if i+n > len(acts) {
+			return nil
+		}
+		r := acts[i : i+n]
+		i += n
+		return r
+	}
+	for _, it := range st {
+		switch it.kind {
+		case "inittpm":
+			n := 1
+			if it.withLog {
+				n = 3
+			}
+			it.acts = take(n)
+		case "loginit":
+			it.acts = take(2)
+		case "pcr0":
+			it.acts = take(len(acts) - i)
+			if !p.fillPCR0(it) {
+				return false
+			}
+		default:
+			it.acts = take(1)
+		}
+		if it.acts == nil {
+			return false
+		}
+	}
+	return i == len(acts)
+}
+
+// fillPCR0 reads the references the PCR0_DATA step computed from its TPMExtend actions
+func (p *platform) fillPCR0(it *itemSpec) bool {
+	if len(it.acts) == 1 && isPanicAction(it.acts[0]) {
+		it.kind = "panic"
+		return true
+	}
+	i := 0
+	for bank := 0; bank < 2; bank++ {
+		if i < len(it.acts) && isPanicAction(it.acts[i]) {
+			i++
+			continue
+		}
+		if i+1 >= len(it.acts) {
+			return false
+		}
+		ext, ok := it.acts[i].(*tpmactions.TPMExtend)
+		if !ok || ext.PCRIndex != 0 || uint16(ext.HashAlgo) != algs[bank] {
+			return false
+		}
+		sd, ok := ext.DataSource.(*datasources.StaticData)
+		if !ok {
+			return false
+		}
+		spec, ok := p.toDataSpec((*types.Data)(sd))
+		if !ok || spec.conv != algs[bank] {
+			return false
+		}
+		if _, ok := it.acts[i+1].(*tpmactions.TPMEventLogAdd); !ok {
+			return false
+		}
+		it.pcr0[bank] = &spec
+		i += 2
+	}
+	return i == len(it.acts)
+}
+
+// derive builds the items of a step of a built-in flow from the step and action objects
+func (p *platform) derive(sr bootengine.StepResult) ([]*itemSpec, bool) {
+	switch s := sr.Step.(type) {
+	case *tpmsteps.InitTPMStruct:
+		it := &itemSpec{kind: "inittpm", l: s.Locality, withLog: s.WithLog}
+		return []*itemSpec{it}, p.bind([]*itemSpec{it}, sr.Actions)
+	case tpmsteps.LogInitStruct:
+		it := &itemSpec{kind: "loginit", l: s.Locality}
+		return []*itemSpec{it}, p.bind([]*itemSpec{it}, sr.Actions)
+	case intelsteps.MeasurePCR0DATA:
+		it := &itemSpec{kind: "pcr0"}
+		return []*itemSpec{it}, p.bind([]*itemSpec{it}, sr.Actions)
+	}
+	var out []*itemSpec
+	for _, a := range sr.Actions {
+		var it *itemSpec
+		switch x := a.(type) {
+		case *tpmactions.TPMInit:
+			it = &itemSpec{kind: "init", l: x.Locality}
+		case *tpmactions.TPMEvent:
+			it = &itemSpec{kind: "event", p: uint8(x.PCRIndex), ty: uint32(x.Type), evd: x.EventData, ds: x.DataSource}
+		case *tpmactions.TPMExtend:
+			it = &itemSpec{kind: "extend", p: uint8(x.PCRIndex), alg: uint16(x.HashAlgo), ds: x.DataSource}
+		case *tpmactions.TPMEventLogAdd:
+			it = &itemSpec{kind: "logadd", p: uint8(x.PCRIndex), alg: uint16(x.Algo), digest: x.Digest, ty: uint32(x.Type), evd: x.EventData}
+		default:
+			if isPanicAction(a) {
+				it = &itemSpec{kind: "panic"}
+			}
+		}
+		if it == nil {
+			continue
+		}
+		if it.ds != nil {
+			var d *types.Data
+			var err error
+			if pan, _ := gal.Recover(func() { d, err = it.ds.Data(bg, p.state) }); pan {
+				return nil, false
+			}
+			if err != nil {
+				it.src = srcSpec{err: true}
+			} else {
+				spec, ok := p.toDataSpec(d)
+				if !ok {
+					return nil, false
+				}
+				it.src = srcSpec{data: spec}
+			}
+		}
+		it.acts = []types.Action{a}
+		out = append(out, it)
+	}
+	return out, true
+}
+
+// ---------------------------------------------------------------- running, observing, judging
+
+type hashTable struct {
+	seen  map[string]bool
+	items []string
+}
+
+func (h *hashTable) add(alg uint16, m msg) []byte {
+	d := hashOf(alg, m.b)
+	k := fmt.Sprintf("%d:%s", alg, string(m.b))
+	if h.seen == nil {
+		h.seen = map[string]bool{}
+	}
+	if !h.seen[k] && d != nil {
+		h.seen[k] = true
+		h.items = append(h.items, fmt.Sprintf("((%d, %s), %s)", alg, m.e, bl(d)))
+	}
+	return d
+}
+
+func cat(a, b []byte) []byte { return append(append([]byte{}, a...), b...) }
+
+func pcrsLit(v tpm.PCRValues) string {
+	var ps []string
+	for _, banks := range v {
+		var bs []string
+		for _, d := range banks {
+			bs = append(bs, bl(d))
+		}
+		ps = append(ps, gal.List(bs))
+	}
+	return gal.List(ps)
+}
+
+func pcrsEqual(a, b tpm.PCRValues) bool {
+	if len(a) != len(b) {
+		return false
+	}
+	for i := range a {
+		if len(a[i]) != len(b[i]) {
+			return false
+		}
+		for j := range a[i] {
+			if !bytes.Equal(a[i][j], b[i][j]) {
+				return false
 			}
 		}
 	}
+	return true
+}
+
+func toParsed(log tpm.EventLog) *tpmeventlog.TPMEventLog {
+	out := &tpmeventlog.TPMEventLog{}
+	for i := range log {
+		e := &log[i]
+		out.Events = append(out.Events, &tpmeventlog.Event{PCRIndex: e.PCRIndex, Type: e.Type, Data: e.Data,
+			Digest: &tpmeventlog.Digest{HashAlgo: e.HashAlgo, Digest: e.Digest}})
+	}
+	return out
+}
+
+// wellFormed: the flow (its items in order, Panic steps aside) is one startup followed by
+// measurements that extend and log the same digest
+func wellFormed(items []*itemSpec) (ok bool, l uint8, logged bool) {
+	var xs []*itemSpec
+	for _, it := range items {
+		if it.kind != "panic" {
+			xs = append(xs, it)
+		}
+	}
+	isInit := func(it *itemSpec) bool { return it.kind == "init" || (it.kind == "inittpm" && !it.withLog) }
+	n := 0
+	switch {
+	case len(xs) >= 1 && xs[0].kind == "inittpm" && xs[0].withLog:
+		l, logged, n = xs[0].l, true, 1
+	case len(xs) >= 2 && isInit(xs[0]) && xs[1].kind == "loginit" && xs[1].l == xs[0].l:
+		l, logged, n = xs[0].l, true, 2
+	case len(xs) >= 2 && xs[0].kind == "loginit" && isInit(xs[1]) && xs[1].l == xs[0].l:
+		l, logged, n = xs[0].l, true, 2
+	case len(xs) >= 1 && isInit(xs[0]):
+		l, logged, n = xs[0].l, false, 1
+	default:
+		return false, 0, false
+	}
+	for _, it := range xs[n:] {
+		switch it.kind {
+		case "event":
+			if it.ty == evNoAct {
+				return false, 0, false
+			}
+		case "pcr0":
+		default:
+			return false, 0, false
+		}
+	}
+	return true, l, logged
+}
+
+type runResult struct {
+	kind  string
+	plat  *platform
+	steps [][]*itemSpec // executed TPM-relevant steps
+	flags [][]bool
+	proc  *bootengine.BootProcess
+}
+
+// stepFlags: for the actions bound to items, whether an issue was recorded at their index
+func stepFlags(sr bootengine.StepResult, st []*itemSpec) []bool {
+	for _, is := range sr.Issues {
+		if _, ok := is.Coords.(bootengine.StepIssueCoordsActions); ok {
+			return []bool{true}
+		}
+	}
+	bad := map[uint]bool{}
+	for _, is := range sr.Issues {
+		if c, ok := is.Coords.(bootengine.StepIssueCoordsAction); ok {
+			bad[c.ActionIndex] = true
+		}
+	}
+	idx := map[types.Action]uint{}
+	for i, a := range sr.Actions {
+		if !isPanicAction(a) {
+			idx[a] = uint(i)
+		}
+	}
+	var out []bool
+	for _, it := range st {
+		for _, a := range it.acts {
+			if isPanicAction(a) {
+				out = append(out, true)
+				continue
+			}
+			out = append(out, bad[idx[a]])
+		}
+	}
+	return out
+}
+
+func runGenerated(kind string, p *platform, items []*itemSpec) *runResult {
+	steps := group(items)
+	p.state.SetFlow(types.NewFlow("c01-"+kind, realize(steps)))
+	proc := bootengine.NewBootProcess(p.state)
+	proc.Finish(bg)
+	if len(proc.Log) != len(steps) {
+		panic(fmt.Sprintf("harness: %d steps executed, %d intended", len(proc.Log), len(steps)))
+	}
+	r := &runResult{kind: kind, plat: p, proc: proc}
+	for i, st := range steps {
+		if !p.bind(st, proc.Log[i].Actions) {
+			panic(fmt.Sprintf("harness: cannot bind the actions of step %d (%T)", i, proc.Log[i].Step))
+		}
+		r.steps = append(r.steps, st)
+		r.flags = append(r.flags, stepFlags(proc.Log[i], st))
+	}
+	return r
+}
+
+func runBuiltin(kind string, p *platform, flow types.Flow) *runResult {
+	p.state.SetFlow(flow)
+	proc := bootengine.NewBootProcess(p.state)
+	proc.Finish(bg)
+	r := &runResult{kind: kind, plat: p, proc: proc}
+	for _, sr := range proc.Log {
+		st, ok := p.derive(sr)
+		if !ok {
+			return nil
+		}
+		if len(st) == 0 {
+			continue
+		}
+		r.steps = append(r.steps, st)
+		r.flags = append(r.flags, stepFlags(sr, st))
+	}
+	return r
+}
+
+func (r *runResult) items() []*itemSpec {
+	var out []*itemSpec
+	for _, st := range r.steps {
+		out = append(out, st...)
+	}
+	return out
+}
+
+func (r *runResult) descr() interface{} {
+	var steps []interface{}
+	for _, st := range r.steps {
+		var is []interface{}
+		for _, it := range st {
+			is = append(is, it.descr())
+		}
+		steps = append(steps, is)
+	}
+	return map[string]interface{}{"kind": r.kind, "image": r.plat.img.coq, "txt_registers": r.plat.hasRegs,
+		"ACM_POLICY_STATUS": fmt.Sprintf("%#x", r.plat.reg), "steps": steps}
+}
+
+func cmdLit(c tpm.Command) string {
+	switch x := c.(type) {
+	case *tpm.CommandInit:
+		return fmt.Sprintf("(Startup %d)", x.Locality)
+	case *tpm.CommandExtend:
+		return fmt.Sprintf("(Extend %d %d %s)", x.PCRIndex, x.HashAlgo, bl(x.Digest))
+	case *tpm.CommandEventLogAdd:
+		return fmt.Sprintf("(LogAdd %d %d %s %d %s)", x.PCRIndex, x.HashAlgo, bl(x.Digest), x.Type, optBytes(x.Data))
+	}
+	panic(fmt.Sprintf("unknown command %T", c))
+}
+
+// judge observes everything, runs the oracle and emits the case
+func judge(r *runResult) {
+	p := r.plat
+	t := p.tpm
+	s := p.state
+	ht := &hashTable{}
+	items := r.items()
+	descr := r.descr()
+	idx := -1 // the case index is known only after Add: oracle failures are collected first
+	type fail struct {
+		known, what, site string
+	}
+	var fails []fail
+	checks := 0
+	expect := func(ok bool, what, site string) {
+		checks++
+		if !ok {
+			fails = append(fails, fail{"", what, site})
+		}
+	}
+
+	// --- what each item denotes (independent reading) and the table entries the model will need
+	type meas struct {
+		readable  bool
+		raw, conv msg
+	}
+	measOf := map[*itemSpec]*meas{}
+	byAction := map[types.Action]*itemSpec{}
+	evalData := func(d dataSpec) *meas {
+		m := &meas{}
+		m.raw, m.readable = rawOf(d)
+		if !m.readable {
+			return m
+		}
+		m.conv = m.raw
+		if d.conv != 0 {
+			m.conv = litMsg(ht.add(d.conv, m.raw))
+		}
+		return m
+	}
+	pcr0Meas := map[*itemSpec][2]*meas{}
+	for _, it := range items {
+		for _, a := range it.acts {
+			byAction[a] = it
+		}
+		switch it.kind {
+		case "event":
+			if !it.src.err {
+				m := evalData(it.src.data)
+				measOf[it] = m
+				if m.readable {
+					for _, a := range algs {
+						ht.add(a, m.conv)
+					}
+				}
+			}
+		case "extend":
+			if !it.src.err {
+				measOf[it] = evalData(it.src.data)
+			}
+		case "pcr0":
+			var ms [2]*meas
+			for b := 0; b < 2; b++ {
+				if it.pcr0[b] != nil {
+					ms[b] = evalData(*it.pcr0[b])
+				}
+			}
+			pcr0Meas[it] = ms
+		}
+	}
+
+	// --- observations
+	cmds := t.CommandLog.Commands()
+	var cmdLits []string
+	for _, c := range cmds {
+		cmdLits = append(cmdLits, cmdLit(c))
+	}
+	var evLits []string
+	for i := range t.EventLog {
+		e := &t.EventLog[i]
+		evLits = append(evLits, fmt.Sprintf("(EV %d %d %s %d %s)", e.PCRIndex, e.HashAlgo, bl(e.Digest), e.Type, optBytes(e.Data)))
+	}
+	var measLits []string
+	measBytes := make([][]byte, len(s.MeasuredData))
+	for i := range s.MeasuredData {
+		var cb []byte
+		pan, _ := gal.Recover(func() { cb = s.MeasuredData[i].ConvertedBytes() })
+		if pan {
+			measLits = append(measLits, "((-1), 0)")
+			continue
+		}
+		measBytes[i] = cb
+		h := uint64(0)
+		for _, x := range cb {
+			h = gal.DStep(h, uint64(x))
+		}
+		measLits = append(measLits, gal.Pair(gal.Z(int64(len(cb))), gal.U(h)))
+	}
+	var flagLits []string
+	noIssues := true
+	for _, f := range r.flags {
+		flagLits = append(flagLits, gal.BoolList(f))
+		for _, b := range f {
+			if b {
+				noIssues = false
+			}
+		}
+	}
+
+	// the startup locality: that of the first TPMInit command that succeeded (it is the first one issued)
+	loc := uint8(0)
+	for _, c := range cmds {
+		if ci, ok := c.(*tpm.CommandInit); ok {
+			loc = ci.Locality
+			break
+		}
+	}
+
+	// table entries for the PCR chain: a small reference fold over the OBSERVED command log
+	ref := map[[2]uint16][]byte{}
+	started := false
+	for _, c := range cmds {
+		switch x := c.(type) {
+		case *tpm.CommandInit:
+			if !started {
+				started = true
+				for _, a := range algs {
+					z := make([]byte, hsize(a))
+					ref[[2]uint16{1, a}] = z
+					z0 := make([]byte, hsize(a))
+					z0[len(z0)-1] = x.Locality
+					ref[[2]uint16{0, a}] = z0
+				}
+			}
+		case *tpm.CommandExtend:
+			k := [2]uint16{uint16(x.PCRIndex), uint16(x.HashAlgo)}
+			if old, ok := ref[k]; ok {
+				ref[k] = ht.add(uint16(x.HashAlgo), litMsg(cat(old, x.Digest)))
+			}
+		}
+	}
+	// ... and for the replays of the observed event log: fold with every seed a replay may use
+	for _, a := range algs {
+		for pi := 0; pi < 2; pi++ {
+			seeds := [][]byte{make([]byte, hsize(a))}
+			if pi == 0 {
+				z := make([]byte, hsize(a))
+				z[len(z)-1] = loc
+				seeds = append(seeds, z)
+				for i := range t.EventLog {
+					e := &t.EventLog[i]
+					if e.PCRIndex == 0 && uint16(e.HashAlgo) == a && e.Type == evNoAct {
+						if l, err := tpmeventlog.ParseLocality(e.Data); err == nil {
+							z2 := make([]byte, hsize(a))
+							z2[len(z2)-1] = l
+							seeds = append(seeds, z2)
+						}
+						break
+					}
+				}
+			}
+			for _, sd := range seeds {
+				acc := sd
+				for i := range t.EventLog {
+					e := &t.EventLog[i]
+					if int(e.PCRIndex) != pi || uint16(e.HashAlgo) != a || e.Type == evNoAct {
+						continue
+					}
+					acc = ht.add(a, litMsg(cat(acc, e.Digest)))
+				}
+			}
+		}
+	}
+
+	// replays
+	parsed := toParsed(t.EventLog)
+	type rep struct {
+		v   []byte
+		err error
+		pan bool
+	}
+	var replays []rep
+	var replayLits []string
+	for pi := 0; pi < 2; pi++ {
+		for _, a := range algs {
+			var x rep
+			x.pan, _ = gal.Recover(func() { x.v, x.err = tpmeventlog.Replay(parsed, pcr.ID(pi), tpm2.Algorithm(a), nil) })
+			replays = append(replays, x)
+			switch {
+			case x.pan:
+				replayLits = append(replayLits, "OPanic")
+			case x.err != nil:
+				replayLits = append(replayLits, "OErr")
+			default:
+				replayLits = append(replayLits, "(OOk "+bl(x.v)+")")
+			}
+		}
+	}
+	var tpmReplays [][]byte
+	var tpmReplayLits []string
+	for _, a := range algs {
+		var v []byte
+		pan, _ := gal.Recover(func() { v = t.EventLog.Replay(0, tpm2.Algorithm(a), loc) })
+		if pan {
+			v = nil
+			expect(false, "tpm.EventLog.Replay(0, alg, locality) panicked on the simulator's own log", "pkg/bootflow/subsystems/trustchains/tpm/event_log.go:Replay")
+		}
+		tpmReplays = append(tpmReplays, v)
+		tpmReplayLits = append(tpmReplayLits, bl(v))
+	}
+
+	// re-execution of the command log
+	re := tpm.NewTPM()
+	for _, c := range cmds {
+		gal.Recover(func() { _ = c.Apply(bg, re) })
+	}
+	ap := tpm.NewTPM()
+	var apErr error
+	apPan, _ := gal.Recover(func() { apErr = cmds.Apply(bg, ap) })
+
+	// --- oracle (b): command log
+	expect(pcrsEqual(re.PCRValues, t.PCRValues), "re-executing the recorded command log (Apply by Apply) on a new TPM does not give the same PCR values",
+		"pkg/bootflow/subsystems/trustchains/tpm: TPMExecute/CommandLog vs Command.Apply")
+	if noIssues {
+		expect(!apPan && apErr == nil && pcrsEqual(ap.PCRValues, t.PCRValues),
+			"CommandLog.Commands().Apply on a new TPM does not reproduce the PCR values of a flow that ran without issues",
+			"pkg/bootflow/subsystems/trustchains/tpm/command.go:Commands.Apply")
+	}
+
+	// --- oracle (a): event log
+	wf, wl, logged := wellFormed(items)
+	started = t.IsInitialized()
+	if wf && started {
+		if wl != loc {
+			expect(false, "startup locality of the command log differs from the flow's", "tpm_init.go")
+		}
+		for i, a := range algs {
+			pv, err := t.PCRValues.Get(0, tpm2.Algorithm(a))
+			expect(err == nil && bytes.Equal(tpmReplays[i], pv),
+				fmt.Sprintf("tpm.EventLog.Replay(0, %d, startup locality %d) != PCR0 bank value after a flow in which every extend is logged", a, loc),
+				"pkg/bootflow/subsystems/trustchains/tpm/event_log.go:Replay")
+		}
+		if logged || wl == 0 {
+			for pi := 0; pi < 2; pi++ {
+				for ai, a := range algs {
+					pv, err := t.PCRValues.Get(pcr.ID(pi), tpm2.Algorithm(a))
+					x := replays[pi*2+ai]
+					good := err == nil && !x.pan && x.err == nil && bytes.Equal(x.v, pv)
+					if !good && logged && wl >= 128 && pi == 0 && x.err != nil {
+						checks++
+						fails = append(fails, fail{knownUTF8,
+							fmt.Sprintf("tpmeventlog.Replay rejects the simulator's own log: startup locality %d was logged as UTF-8 (%v)", wl, x.err),
+							"pkg/bootflow/steps/tpmsteps/log_init.go:LogInitStruct.Actions (fmt %c)"})
+						continue
+					}
+					expect(good, fmt.Sprintf("tpmeventlog.Replay(own event log, PCR%d, alg %d) != PCR bank value after a flow in which every extend is logged (startup locality %d, logged=%v)", pi, a, wl, logged),
+						"pkg/tpmeventlog/replay.go:Replay / pkg/bootflow/actions/tpmactions/tpm_event.go")
+				}
+			}
+		}
+	}
+
+	// --- oracle (c): digests
+	// commands grouped by the action that caused them
+	type caused struct {
+		cmds []tpm.Command
+	}
+	byCause := map[types.Action]*caused{}
+	for i := range t.CommandLog {
+		e := &t.CommandLog[i]
+		c := byCause[e.CauseAction]
+		if c == nil {
+			c = &caused{}
+			byCause[e.CauseAction] = c
+		}
+		c.cmds = append(c.cmds, e.Command)
+		if byAction[e.CauseAction] == nil {
+			expect(false, fmt.Sprintf("command %s has a cause action that is not an action of the flow", e.Command.LogString()), "tpm.go:TPMExecute")
+		}
+	}
+	isExt := func(c tpm.Command, p uint8, a uint16, d []byte) bool {
+		x, ok := c.(*tpm.CommandExtend)
+		return ok && uint8(x.PCRIndex) == p && uint16(x.HashAlgo) == a && bytes.Equal(x.Digest, d)
+	}
+	isLog := func(c tpm.Command, p uint8, a uint16, d []byte, ty uint32, data []byte) bool {
+		x, ok := c.(*tpm.CommandEventLogAdd)
+		return ok && uint8(x.PCRIndex) == p && uint16(x.HashAlgo) == a && bytes.Equal(x.Digest, d) && uint32(x.Type) == ty &&
+			bytes.Equal(x.Data, data) && (x.Data == nil) == (data == nil)
+	}
+	measuredBy := map[types.Action][]int{}
+	for i := range s.MeasuredData {
+		measuredBy[s.MeasuredData[i].Action] = append(measuredBy[s.MeasuredData[i].Action], i)
+	}
+	for _, it := range items {
+		switch it.kind {
+		case "event":
+			a := it.acts[0]
+			cs := byCause[a]
+			m := measOf[it]
+			if it.src.err || !m.readable {
+				expect(cs == nil && len(measuredBy[a]) == 0, "a TPMEvent whose data cannot be obtained issued TPM commands or was recorded as measured", "tpm_event.go:Apply")
+				continue
+			}
+			if cs == nil {
+				expect(false, "a TPMEvent with readable data issued no TPM command", "tpm_event.go:Apply")
+				continue
+			}
+			// pairs (extend, log-add) with the same digest = hash(alg, converted bytes), bank after bank;
+			// a refused extend (only possible as the first command) ends the action
+			okPairs := true
+			n := 0
+			for bi, al := range algs {
+				d := hashOf(al, m.conv.b)
+				if 2*bi >= len(cs.cmds) {
+					break
+				}
+				if !isExt(cs.cmds[2*bi], it.p, al, d) {
+					okPairs = false
+					break
+				}
+				n++
+				if 2*bi+1 >= len(cs.cmds) {
+					break
+				}
+				if !isLog(cs.cmds[2*bi+1], it.p, al, d, it.ty, it.evd) {
+					okPairs = false
+					break
+				}
+				n++
+			}
+			expect(okPairs && n == len(cs.cmds) && (n == 4 || n == 1),
+				fmt.Sprintf("the commands issued for a TPMEvent are not (extend, log-add) pairs carrying hash(alg, ConvertedBytes) of the data its references denote (%d commands)", len(cs.cmds)),
+				"pkg/bootflow/actions/tpmactions/tpm_event.go:Apply / pkg/bootflow/types/data.go:RawBytes")
+			if n == 4 {
+				mi := measuredBy[a]
+				expect(len(mi) == 1 && measBytes[mi[0]] != nil && bytes.Equal(measBytes[mi[0]], m.conv.b),
+					"MeasuredData.ConvertedBytes of a TPMEvent != converter(concatenation in reference order of the referenced bytes)",
+					"pkg/bootflow/types/data.go:Data.ConvertedBytes / References.RawBytes")
+			}
+		case "extend":
+			a := it.acts[0]
+			cs := byCause[a]
+			m := measOf[it]
+			if it.src.err || !m.readable {
+				expect(cs == nil && len(measuredBy[a]) == 0, "a TPMExtend whose data cannot be obtained issued TPM commands", "tpm_extend.go:Apply")
+				continue
+			}
+			expect(cs != nil && len(cs.cmds) == 1 && isExt(cs.cmds[0], it.p, it.alg, m.conv.b),
+				"the command issued for a TPMExtend does not carry ConvertedBytes of the data its references denote",
+				"pkg/bootflow/actions/tpmactions/tpm_extend.go:Apply / pkg/bootflow/types/data.go")
+			if mi := measuredBy[a]; len(mi) == 1 {
+				expect(measBytes[mi[0]] != nil && bytes.Equal(measBytes[mi[0]], m.conv.b),
+					"MeasuredData.ConvertedBytes of a TPMExtend != converter(concatenation of the referenced bytes)", "data.go:ConvertedBytes")
+			}
+		case "pcr0":
+			ms := pcr0Meas[it]
+			ai := 0
+			for b := 0; b < 2; b++ {
+				if it.pcr0[b] == nil {
+					ai++
+					continue
+				}
+				ext, lg := it.acts[ai], it.acts[ai+1]
+				ai += 2
+				if !ms[b].readable {
+					continue
+				}
+				d := ms[b].conv.b // = hash(alg, raw): the Hasher converter
+				ce, cl := byCause[ext], byCause[lg]
+				expect(ce != nil && len(ce.cmds) == 1 && isExt(ce.cmds[0], 0, algs[b], d),
+					"PCR0_DATA: the extended digest != hash(alg, concatenation in reference order of the six referenced fields)",
+					"pkg/bootflow/steps/intelsteps/measure_pcr0_data.go")
+				expect(cl != nil && len(cl.cmds) == 1 && isLog(cl.cmds[0], 0, algs[b], d, 7, []byte("PCR0_DATA "+map[int]string{0: "SHA1", 1: "SHA256"}[b])),
+					"PCR0_DATA: the logged digest != hash(alg, concatenation of the six referenced fields) (extend and log-add must carry the same digest)",
+					"pkg/bootflow/steps/intelsteps/measure_pcr0_data.go:compileActions")
+			}
+		case "loginit", "inittpm":
+			if it.kind == "inittpm" && !it.withLog {
+				continue
+			}
+			las := it.acts
+			if it.kind == "inittpm" {
+				las = it.acts[1:]
+			}
+			for b, a := range las {
+				cs := byCause[a]
+				want := append([]byte("StartupLocality\x00"), it.l)
+				okc := cs != nil && len(cs.cmds) == 1
+				if okc && !isLog(cs.cmds[0], 0, algs[b], make([]byte, hsize(algs[b])), evNoAct, want) {
+					if it.l >= 128 {
+						checks++
+						fails = append(fails, fail{knownUTF8,
+							fmt.Sprintf("LogInit(%d) does not log \"StartupLocality\\x00\" followed by the locality byte", it.l),
+							"pkg/bootflow/steps/tpmsteps/log_init.go:LogInitStruct.Actions (fmt %c)"})
+						continue
+					}
+					okc = false
+				}
+				expect(okc, fmt.Sprintf("LogInit(%d) does not add the EV_NO_ACTION startup-locality entry (zero digest, \"StartupLocality\\x00\"+locality) for bank %d", it.l, algs[b]),
+					"pkg/bootflow/steps/tpmsteps/log_init.go")
+			}
+		}
+	}
+
+	// --- the case
+	apOK := !apPan && apErr == nil
+	var stepLits []string
+	for _, st := range r.steps {
+		var is []string
+		for _, it := range st {
+			is = append(is, it.lit())
+		}
+		stepLits = append(stepLits, gal.List(is))
+	}
+	lit := fmt.Sprintf("(mkCase\n    %s\n    %s\n    %s\n    %s\n    %s\n    %s %s %d\n    %s\n    %s\n    %s\n    (%s, %s))",
+		gal.List(ht.items), gal.List(stepLits), pcrsLit(t.PCRValues), gal.List(cmdLits), gal.List(evLits),
+		gal.List(measLits), gal.List(flagLits), loc, gal.List(replayLits), gal.List(tpmReplayLits),
+		pcrsLit(re.PCRValues), gal.Bool(apOK), pcrsLit(ap.PCRValues))
+	kind := r.kind
+	if wf && started {
+		kind += "/wf"
+	}
+	idx = ctx.Add(kind, lit, descr, len(cmds) > 1)
+	ctx.Count("cmds>=8:" + gal.Bool(len(cmds) >= 8))
+	if wf && started && len(t.EventLog) >= 6 {
+		ctx.Count("wf with >=3 logged measurements")
+	}
+	for i := 0; i < checks-len(fails); i++ {
+		ctx.OracleOK()
+	}
+	for _, f := range fails {
+		if f.known != "" {
+			ctx.OracleFailKnown(idx, f.known, f.what, f.site, descr)
+		} else {
+			ctx.OracleFail(idx, f.what, f.site, descr)
+		}
+	}
+}
+
+// ---------------------------------------------------------------- main
+
+func header() string {
+	var sb strings.Builder
+	sb.WriteString("From Coq Require Import Init.Byte.\n")
+	sb.WriteString("From CSS Require Import Lib.Base Lib.Cases Model.TPM Model.BootSim Model.BootSimCases.\n")
+	sb.WriteString("Definition img4k : list Z := Eval vm_compute in " + bl(img4kBytes) + ".\n")
+	sb.WriteString("Definition fw : list Z := Eval vm_compute in " + bl(firmware.FakeIntelFirmware) + ".")
+	return sb.String()
+}
+
+func probeUTF8() {
+	p := newPlatform(false, false, 0)
+	p.state.SetFlow(types.NewFlow("probe", types.Steps{
+		tpmsteps.InitTPM(200, true),
+		tpmsteps.Measure(0, tpmeventlog.EV_POST_CODE, datasources.Bytes{1, 2}),
+	}))
+	bootengine.NewBootProcess(p.state).Finish(bg)
+	_, err := tpmeventlog.Replay(toParsed(p.tpm.EventLog), 0, tpm2.AlgSHA1, nil)
+	data := []byte(nil)
+	if len(p.tpm.EventLog) > 0 {
+		data = p.tpm.EventLog[0].Data
+	}
+	ctx.Probe(knownUTF8, err != nil,
+		fmt.Sprintf("InitTPM(200, true); Measure(0, EV_POST_CODE, Bytes{1,2}): startup entry data = %x; tpmeventlog.Replay(own log, 0, SHA1) -> %v", data, err))
+}
+
+func main() {
+	// the synthetic 4 KiB image is a constant (like the bundled fake firmware): an LCG stream with a
+	// stretch of runs of equal bytes, so that shifted / overlapping ranges are sometimes indistinguishable
+	img4kBytes = make([]byte, 4096)
+	x := uint32(12345)
+	for i := range img4kBytes {
+		x = x*1664525 + 1013904223
+		img4kBytes[i] = byte(x >> 24)
+	}
+	for i := 512; i < 1024; i++ {
+		img4kBytes[i] = byte(i / 64)
+	}
+	ctx = gal.New("C01", header(), 48)
+
+	nWF := ctx.Scale(330, 3000)
+	nGen := ctx.Scale(330, 3000)
+	nIntel := ctx.Scale(40, 300)
+
+	mkPlat := func() *platform {
+		useFW := ctx.Rng.Intn(10) < 6
+		hasRegs := useFW && ctx.Rng.Intn(10) < 8
+		return newPlatform(useFW, hasRegs, ctx.Rng.Uint64())
+	}
+	for i := 0; i < nWF; i++ {
+		p := mkPlat()
+		judge(runGenerated("wf-gen", p, p.genWF()))
+	}
+	for i := 0; i < nGen; i++ {
+		p := mkPlat()
+		judge(runGenerated("general", p, p.genGeneral()))
+	}
+	builtin := []types.Flow{flows.Root, flows.Intel, flows.IntelCBnT, flows.IntelLegacyTXTEnabled, flows.OCPPEI, flows.PEI,
+		flows.IntelLegacyTXTDisabled, flows.IntelCBnTFailure}
+	for i := 0; i < nIntel; i++ {
+		reg := ctx.Rng.Uint64()
+		if i%5 == 0 {
+			reg = pick[uint64](0, 0x0000000200108681, 2, ^uint64(0))
+		}
+		p := newPlatform(true, i%7 != 6, reg)
+		f := builtin[i%len(builtin)]
+		r := runBuiltin("builtin:"+f.Name, p, f)
+		if r == nil {
+			ctx.Count("builtin flow with a reference the harness cannot describe (skipped)")
+			continue
+		}
+		judge(r)
+	}
+	probeUTF8()
+	ctx.Finish("per case: a boot flow built from the public constructors is run by bootengine on the real code; the model (Model/BootSim.v over Model/TPM.v, Model/EventLog.v, Model/Refs.v) is run on the same items with the case's hash table; compared: TPM.PCRValues, CommandLog, EventLog, ConvertedBytes of every MeasuredData entry, which actions had issues, tpmeventlog.Replay for both PCRs and banks, tpm.EventLog.Replay for both banks, PCRValues after re-executing the command log (Apply by Apply and Commands.Apply)")
 }
